@@ -645,3 +645,50 @@ def make_phantoms_unbounded(S, I, variant):
         for cid in CONTESTS:
             S.holds(f"[{cid}] the contest's bound becomes the stratum bound", icmp("==", cons[cid].attrs["cards"], max_cards))
             S.holds(f"[{cid}] phantoms list no contest", bnot(votes_has(rec, cid)))
+
+
+# ------------------------------------------------------------------ C10 (and C07's last clause): lemmas over the consistent_sampling contract
+
+@script(["C10", "C07"], "consistent_sampling/lemmas over its contract: escalation nests selections and extends every contest's data (unbounded)")
+def sampling_contract_lemmas(S, I, variant):
+    """No code is run here: these are consequences of the contract that the loop-invariant script proves of the real
+    consistent_sampling (position j of the sorted list is selected iff some contest c lists it and fewer than n_c earlier
+    positions list c; threshold_c = sample number of the position w_c with has_c(w_c) and cnt_c(w_c) = n_c - 1) and of the
+    contract of sorted (non-decreasing, here strictly increasing, sample numbers along the sorted list)."""
+    c = ctx()
+    N = S.integer("N", lo=0)
+    has = {cid: z3.Function(f"has_{cid}", z3.IntSort(), z3.BoolSort()) for cid in CONTESTS}
+    SN = z3.Function("sn_sorted", z3.IntSort(), z3.RealSort())
+    cnt = {cid: SymArr(iterm(N), (lambda cid: (lambda j: mkint(iite(has[cid](zi(j)), 1, 0))))(cid), "int").fold("+") for cid in CONTESTS}
+    n1 = {cid: S.integer(f"n1_{cid}", lo=0) for cid in CONTESTS}
+    n2 = {cid: S.integer(f"n2_{cid}", lo=0) for cid in CONTESTS}
+    for cid in CONTESTS:
+        c.assume(icmp("<=", n1[cid], n2[cid]))           # sample sizes do not decrease
+    take = lambda n, j: bor(*[band(has[cid](zi(j)), icmp("<", cnt[cid].at(j), n[cid])) for cid in CONTESTS])
+    j = z3.Int(c.fresh("j"))
+    c.assume(z3.And(j >= 0, j < zi(N)))
+    S.holds("every card selected in round 1 is selected in round 2 (redraw with sizes n <= n')", bimp(take(n1, j), take(n2, j)))
+    for cid in CONTESTS:
+        D = lambda n, q, cid=cid: band(has[cid](zi(q)), icmp("<", cnt[cid].at(q), n[cid]))
+        S.holds(f"[{cid}] every observation of round 1 is an observation of round 2", bimp(D(n1, j), D(n2, j)))
+        # monotone counts: cnt(j + d) >= cnt(j)  (induction on d)
+        i = z3.Int(c.fresh("i"))
+        c.assume(z3.And(i >= 0, i < zi(N)))
+        d = S.induction(f"[{cid}] counts are monotone along the sorted list", lambda dd, cid=cid: bimp(icmp("<=", iadd(j, dd), N), icmp(">=", cnt[cid].at(iadd(j, dd)), cnt[cid].at(j))), lo=0)
+        if d(isub(i, j)):
+            S.holds(f"[{cid}] new observations come after all old ones in sample-number order (the old sequence is a prefix of the new one)",
+                    bimp(band(D(n1, i), D(n2, j), bnot(D(n1, j))), icmp("<", i, j)))
+        else:
+            S.undecided(f"[{cid}] new observations come after all old ones")
+        # threshold filter of mvrs_to_data: sample number <= threshold  <=>  among the contest's first n_c cards
+        w = z3.Int(c.fresh("w"))
+        c.assume(z3.And(w >= 0, w < zi(N), has[cid](w), zb(icmp("==", cnt[cid].at(w), isub(n1[cid], 1)))))
+        for (a_, b_) in ((j, w), (w, j)):               # contract of sorted + distinct sample numbers, at the two pairs used
+            c.assume(z3.Implies(a_ < b_, SN(a_) < SN(b_)))
+        dj = S.induction(f"[{cid}] counts are monotone from the threshold card on", lambda dd, cid=cid: bimp(icmp("<=", iadd(iadd(w, 1), dd), N), icmp(">=", cnt[cid].at(iadd(iadd(w, 1), dd)), cnt[cid].at(iadd(w, 1)))), lo=0)
+        dw = S.induction(f"[{cid}] counts are monotone up to the threshold card", lambda dd, cid=cid: bimp(icmp("<=", iadd(j, dd), N), icmp(">=", cnt[cid].at(iadd(j, dd)), cnt[cid].at(j))), lo=0)
+        if dj(isub(j, iadd(w, 1))) and dw(isub(w, j)):
+            S.holds(f"[{cid}] a card listing the contest has sample number <= threshold exactly when it is among the contest's first n_c cards",
+                    bimp(has[cid](j), biff(SN(j) <= SN(w), zb(icmp("<", cnt[cid].at(j), n1[cid])))))
+        else:
+            S.undecided(f"[{cid}] threshold filter")
